@@ -41,9 +41,15 @@ func c10System(c *sim.Case) {
 			idle = 2 * time.Second
 		}
 		st := sim.PickStr(c, "store", "memory", "redis")
-		w := sim.NewWorld(c, sim.WorldOpts{Store: st, ViaServer: true, RealFactory: true, Abs: abs, Idle: idle, CookiePrefix: fmt.Sprintf("w%d", wi)})
+		// half of the deployments are the built service binary (cmd/main.go) driven over gRPC, the others the same
+		// wiring assembled in process
+		binary := sim.ServiceBinary() != "" && sim.Bool(c, "binary")
+		w := sim.NewWorld(c, sim.WorldOpts{Store: st, ViaServer: true, RealFactory: true, Binary: binary, Abs: abs, Idle: idle, CookiePrefix: fmt.Sprintf("w%d", wi)})
 		worlds = append(worlds, w)
-		c.Logf("deployment %d: store=%s abs=%v idle=%v", wi, st, abs, idle)
+		if binary {
+			c.Class("deployment:service-binary")
+		}
+		c.Logf("deployment %d: store=%s abs=%v idle=%v binary=%v", wi, st, abs, idle, binary)
 		for si := 0; si < nSess; si++ {
 			s := &c10Sess{w: w, b: w.NewBrowser(fmt.Sprintf("w%ds%d", wi, si)), abs: abs, idle: idle}
 			for k := 0; k < slots; k++ {
